@@ -75,7 +75,9 @@ def render(case):
         for f in feats:
             lines += IMPORTS.get(f, [])
         lines += extra_imports
-        body = [derive_form(DECLS[f], f, case.get("form", "alone")).replace("{S}", suffix.upper()).replace("{s}", suffix) for f in feats if f in DECLS]
+        # a declaration without any feature comes first: scanners that stop at the first type / function they meet show up
+        body = ["pub model Plain{S}:\n  pub z: int\n".replace("{S}", suffix.upper())] if feats else []
+        body += [derive_form(DECLS[f], f, case.get("form", "alone")).replace("{S}", suffix.upper()).replace("{s}", suffix) for f in feats if f in DECLS]
         return "\n".join(lines) + ("\n\n" if lines else "") + "\n".join(body) + ("\n" if body else "") + tail
 
     files = {}
